@@ -66,7 +66,6 @@ def x_periods(ctx) -> None:
         "SELECT y, ind, SUM(CAST(valid AS INTEGER)) FROM periods GROUP BY y, ind").fetchall())
     bad_scalar, bad_shift, bad_count = [], [], []
     n_eval = 0
-    next_diffs: List[Tuple[Tuple[int, str], int]] = []
     for k in keys:
         v = fp[k]
         flat = [x for r in sc[k] for x in r]
@@ -77,7 +76,6 @@ def x_periods(ctx) -> None:
             bad_scalar.append(k)
         if v[2] != P.fpz(sh[k].reshape(-1)):
             bad_shift.append(k)
-        next_diffs += [(k, x) for x in v[3:]]
     ctx.count(None, n_eval)
     for k in keys:
         ctx.count(("x", k))
@@ -117,22 +115,6 @@ def x_periods(ctx) -> None:
     ctx.cov["x_shift_pairs"] = int(sum(v.size for v in sh.values()))
     ctx.cov["x_scalar_values"] = int(sum(len(r) for v in sc.values() for r in v))
     # ---- where the (tied) macro leaves the calendar: confirm on the real engine, report
-    ctx.cov["macro_next_vs_calendar_disagreements"] = len(next_diffs)
-    by_ind = {}
-    for (y, i), x in next_diffs:
-        num, spec = divmod(x, 10 ** 7)
-        by_ind.setdefault(i, []).append((y, num, spec))
-    for i, lst in sorted(by_ind.items()):
-        y, num, spec = lst[0]
-        nxt = P.next_period_sql().replace("p.", "pp.")
-        got = P.conn().execute(f"SELECT vtl_period_to_string({nxt}) FROM (SELECT {{'year': {y}, 'period_indicator': '{i}', "
-                               f"'period_number': {num}}}::vtl_time_period AS pp)").fetchone()[0]
-        exp = D.canon((spec // 1000, i, spec % 1000))
-        if got != exp:
-            key = {"W": "fill_time_series:W:range-contains-week-53", "D": "fill_time_series:D:range-contains-day-366"}.get(i, f"fill_time_series:{i}:unexpected")
-            ctx.violation(key, f"the step of fill_time_series (_TP_NEXT_PERIOD) after {D.canon((y, i, num))} is {got}, the calendar gives {exp}: "
-                               f"{'week 53' if i == 'W' else 'day 366'} is never generated ({len(lst)} valid periods affected in the {len(years)} years evaluated)",
-                          {"kind": "macro_next", "year": y, "ind": i, "num": num, "expected": exp, "observed": got})
 
 
 def x_calendar(ctx) -> None:
@@ -211,10 +193,7 @@ class Case:
 
 
 def key_for(op: str, ind: str, predicted: bool) -> str:
-    """fill_time_series on a range containing week 53 / day 366 is the open finding; timeshift was repaired (1bd5380): any failure is new"""
-    if op == "fill_time_series":
-        shape = {"W": "range-contains-week-53", "D": "range-contains-day-366"}.get(ind, "unexpected")
-        return f"{op}:{ind}:{shape}" + ("" if predicted else ":unpredicted")
+    """timeshift (1bd5380) and fill_time_series (50e3447) were repaired: no failure is a known finding any more"""
     return f"{op}:{ind}:wrong-result"
 
 
@@ -519,8 +498,8 @@ def k_datasets(ctx) -> None:
 
 def k_witnesses(ctx) -> None:
     """corpus first: past minimal failures replayed through vtlengine.run.  "expect": "pass" = repaired in /repo (the witnesses of
-    C08_shift_before_fix_refuted): a failure is a regression and is reported under a key that is NOT a known finding;
-    "expect": "known" = still open (fill_time_series): reported under its known key, and if it stops failing the model is stale."""
+    C08_shift_before_fix_refuted / C08_next_before_fix_refuted): a failure is a regression and is reported under a key that is NOT
+    a known finding; "expect": "known" = still open (none today): known key, and if it stops failing the model is stale."""
     S = D.tp_structure()
     files = sorted((common.CORPUS / "C08").glob("*.json"))
     for f in files:
@@ -540,8 +519,9 @@ def k_witnesses(ctx) -> None:
         else:
             gotm = {r[1]: D.num(r[2]) for r in out}
             lost = [p for k, p in enumerate(w["periods"]) if gotm.get(p) != k + 1]
-            failing = bool(lost)
-            what = f"{w['script']} on {w['periods']} returns {sorted(gotm)}: input datapoints {lost} are missing from the result"
+            failing = bool(lost) or ("want" in w and sorted(gotm) != sorted(w["want"]))
+            what = (f"{w['script']} on {w['periods']} returns {sorted(gotm)}, the gap-free series is {w.get('want')}; "
+                    f"input datapoints missing from the result: {lost}")
         rep.update({"expected": w.get("want", "every input datapoint present, gap-free"), "observed": [list(r) for r in out]})
         if failing:
             ctx.violation(w["key"], what + f" ({w.get('note', '')})", rep)
